@@ -176,7 +176,7 @@ def n_keep(s, trunc):
     return max(k, 1)
 
 
-def ref_truncate(parents, dims, psi, trunc):
+def ref_truncate(parents, dims, psi, trunc, bonds=None):
     """root-to-leaves truncation of a tree state given densely: at every node all child projectors are computed
     from the node's (not yet projected) connecting tensor; below the root the connecting tensor is the orthonormal
     basis kept one level up.  Returns (state, ranks, discarded weights per bond, near_tie)."""
@@ -187,6 +187,7 @@ def ref_truncate(parents, dims, psi, trunc):
     ranks, disc = {}, {}
     near = [False]
     cur = [psi.copy()]
+    psinorm = float(np.linalg.norm(psi))
 
     def apply_proj(c, Pc):
         order = S[c]
@@ -199,18 +200,32 @@ def ref_truncate(parents, dims, psi, trunc):
     def walk(n, phi, phi_sites):
         projs = {}
         for c in ch[n]:
+            cap = None
+            if bonds is not None:
+                # the connecting tensor of n has legs (kept parent index, children bonds, site): that many values at most
+                oth = dims[n] * (ranks[n] if n != 0 else 1)
+                for x in ch[n]:
+                    if x != c:
+                        oth *= bonds[x]
+                cap = min(bonds[c], oth)
             order = [phi_sites.index(x) for x in S[c]]
             oth = [k for k in range(phi.ndim) if k not in order]
             m = np.transpose(phi, order + oth).reshape(int(np.prod([dims[x] for x in S[c]])), -1)
             u, s, _ = np.linalg.svd(m, full_matrices=False)
+            if cap is not None:
+                s = s[:cap]
             k = n_keep(s, trunc)
             thr = max(trunc[1] * s[0], trunc[2])
             if not trunc[3] and np.any(np.abs(s - thr) < 1e-7 * max(1e-300, s[0])):
                 near[0] = True
             if k < len(s) and abs(s[k - 1] - s[k]) < 1e-7 * s[0] and s[k] > 1e-9 * s[0]:
                 near[0] = True
+            if s[k - 1] <= 1e-9 * s[0]:
+                near[0] = True      # a numerically zero value is kept: its singular vector is arbitrary, the result not unique
             ranks[c] = k
-            disc[c] = float(np.sqrt(np.sum(s[k:] ** 2)))
+            # below the root the values are those of an orthonormal connecting tensor: the state error is at most
+            # (discarded weight) x (norm of the state)
+            disc[c] = float(np.sqrt(np.sum(s[k:] ** 2))) * (1.0 if n == 0 else psinorm)
             projs[c] = u[:, :k]
         for c in ch[n]:
             apply_proj(c, projs[c])
@@ -277,7 +292,7 @@ class Tracer:
         self.numeric = []       # per evolution: (node, spectrum of the effective Hamiltonian, norm of the evolved tensor)
         self.qr = []            # (node, old parent dim(s), new parent dim)
         self.active = False
-        self._hook = None
+        self.after_trunc = False
 
     # -- versions -----------------------------------------------------------------------------
     def old_version(self, state, x):
@@ -558,6 +573,15 @@ class Tracer:
                 T.nver[node_id] = "NewCentre"
             return o_rt(self_, node_id, *a, **k)
         self._patch(TTN, "replace_tensor", rt)
+
+        o_cf = TTN.canonical_form
+
+        def cf(self_, node_id, *a, **k):
+            if T.after_trunc:
+                T.after_trunc = False
+                T.events.append(("Recanonicalise", nnum(node_id)))
+            return o_cf(self_, node_id, *a, **k)
+        self._patch(TTN, "canonical_form", cf)
         return self
 
     def __exit__(self, *exc):
@@ -887,7 +911,11 @@ def _run_case(case):
                 _aug["dtree"] = py_dtree(tree, tree.root_id)
                 _aug["defect"] = isometry_defect_root(tree, False)
                 _aug["ntree"] = state_ntree(tree, tree.root_id)
-                return _o(tree, params)
+                r = _o(tree, params)
+                _aug["bonds_t"] = bonds_of(tree, n)
+                _aug["defect_t"] = isometry_defect_root(tree, False)
+                _tr.after_trunc = True
+                return r
             try:
                 with tracer:
                     bugmod.recursive_truncation = rec_trunc
@@ -929,10 +957,10 @@ def _run_case(case):
             ref = ref_bug_step(par, dlist, st["psi0"], H, dt, fixed, st["bonds0"])
             st["ref"] = ref
             if not fixed:
-                rt = ref_truncate(par, dlist, aug["psi"], trunc_t)
+                rt = ref_truncate(par, dlist, aug["psi"], trunc_t, aug["bonds"])
                 st["ref_trunc_of_lib_aug"] = rt
                 if ref.get("generic") and "psi1" in ref:
-                    st["ref_trunc"] = ref_truncate(par, dlist, ref["psi1"], trunc_t)
+                    st["ref_trunc"] = ref_truncate(par, dlist, ref["psi1"], trunc_t, ref["newrank"])
         run["caller_unchanged"] = logical_fingerprint(ttns) == caller_fp
     ob["H"] = H
     ob["trunc_t"] = trunc_t
@@ -963,9 +991,10 @@ class C09(Prop):
               "no cache read misses (C09_bug_env_provenance*, C09_no_missing)"),
         ("F", "temporaries: exactly the basis-change nodes of the children are absorbed at every node; the resulting structure is the original tree "
               "(C09_bug_temporaries_gone*)"),
-        ("F", "rank arithmetic: fixed rank keeps every shape; rank-adaptive: every bond at most doubled before truncation, the step raises exactly "
-              "when some non-leaf node's parent leg exceeds the parent-side dimension (C09_shape_*); QR leg tuples partition the legs; concatenation "
-              "along the parent leg doubles that leg only"),
+        ("F", "rank arithmetic: fixed rank keeps every shape; rank-adaptive: every bond at most doubled before truncation; with the bond-keeping "
+              "re-centring of update_node neither variant raises a shape mismatch, whereas a REDUCED re-centring raises exactly when some non-leaf "
+              "node's parent leg exceeds the parent-side dimension (the repaired finding) (C09_shape_*); QR leg tuples partition the legs; "
+              "concatenation along the parent leg adds the parent dimensions only"),
         ("F", "after truncation every bond <= max_bond_dim: the selection rule of C10 (C09_trunc_bond_le, cites Trunc/Select.v)"),
         ("O", "fixed-rank Galerkin step never increases the norm: unitary after a contraction M = U_old^H U_new (Section with matrix-algebra laws as hypotheses)"),
         ("V", "step equality with the scheme, spectra of every projected Hamiltonian, conservation up to the discarded weight, saturated two-node "
@@ -982,12 +1011,11 @@ class C09(Prop):
         rng = ctx.rng(stream)
         cases = []
         small = [p for k in (1, 2, 3, 4) for p in util.all_parents(k)]
-        nrand = ctx.scale(14, 110) * budget_scale
-        maxn = ctx.scale(6, 7)
-        trees = list(small) if (ctx.thorough() or stream != "main") else [p for j, p in enumerate(small) if j % 2 == ctx.seed % 2 or len(p) <= 3]
-        trees = [(p, "all") for p in trees]
+        nrand = ctx.scale(110, 1400) * budget_scale
+        maxn = ctx.scale(7, 8)
+        trees = [(p, "all") for p in small] * ctx.scale(1, 4)
         for _ in range(nrand):
-            k = rng.choice([3, 4, 5, 5, 6, maxn])
+            k = rng.choice([3, 4, 5, 5, 6, 6, maxn])
             trees.append((util.random_parents(rng, k), "random"))
         truncs = [None, None, [2, "-inf", "-inf", False], [3, "-inf", "-inf", False], [100, 1e-2, 1e-3, False], [100, 0.05, 0.0, False],
                   ["inf", "-inf", 0.5, False], [1, "-inf", "-inf", False], [100, 0.0, 0.05, True], [4, 1e-3, 1e-3, False]]
@@ -996,7 +1024,7 @@ class C09(Prop):
             n = len(par)
             for method in ("bug", "fbug"):
                 j += 1
-                flavour = ["generic", "generic", "redundant", "generic", "padzero", "generic"][j % 6]
+                flavour = ["generic", "generic", "redundant", "generic", "padzero", "generic", "redundant"][(j // 2 + j) % 7]
                 maxphys = 3 if n <= 5 else 2
                 phys = [rng.choice([2, 3] if maxphys == 3 else [2]) for _ in range(n)]
                 if flavour != "generic" and rng.random() < 0.3:
@@ -1013,7 +1041,7 @@ class C09(Prop):
                      "padzero": flavour == "padzero", "trunc": rng.choice(truncs) if method == "bug" else None, "src": src}
                 cases.append(c)
         # saturated two-node cases
-        for _ in range(ctx.scale(6, 30) * budget_scale):
+        for _ in range(ctx.scale(12, 80) * budget_scale):
             d0, d1 = rng.choice([(2, 2), (3, 2), (3, 3), (4, 2), (2, 1), (4, 3)])
             for method in ("bug", "fbug"):
                 cases.append({"kind": "two", "parents": [None, 0], "phys": [d0, d1], "bond": {"1": d1}, "seed": rng.randrange(10 ** 9),
@@ -1059,7 +1087,9 @@ class C09(Prop):
                 t = util.coq_rtree(st["rtree"])
                 exprs.append(f"(bug_trace {fixed} {t}, bug_struct {fixed} {t}, shape_root {fixed} {st['dtree_coq']})")
                 where.append((i, s))
-        vals = coq_eval(ctx, IMPORTS, exprs, shard=12, scope="nat_scope", timeout=600)
+        uniq = sorted(set(exprs))
+        uvals = dict(zip(uniq, coq_eval(ctx, IMPORTS, uniq, shard=max(8, min(60, len(uniq) // 14 + 1)), scope="nat_scope", timeout=600)))
+        vals = [uvals[e] for e in exprs]
         out = [None] * len(cases)
         for (i, s), v in zip(where, vals):
             if out[i] is None:
@@ -1102,7 +1132,7 @@ class C09(Prop):
                     return f"deep={deep} step {s}: structure after the update {st['aug']['ntree']} model {ntree_canon(mstruct)}"
                 if state_struct_tuple(st["struct1"], st["root1"]) != ntree_canon(mstruct):
                     return f"deep={deep} step {s}: final structure differs from the model's"
-                want = {"SplitMode.KEEP"} if fixed else {"SplitMode.REDUCED"}
+                want = {"SplitMode.KEEP"}      # update_node re-centres with the bond-keeping split in both variants
                 if st["move_modes"] and set(st["move_modes"]) != want:
                     return f"deep={deep} step {s}: re-centring mode {st['move_modes']}"
         return None
@@ -1163,7 +1193,7 @@ class C09(Prop):
                 dfx = st["defect1p"] if (fixed and (redundant or st["defect0"] > 1e-8)) else st["defect1"]
                 if dfx > 1e-8:
                     cause = ""
-                    if not fixed and aug["defect"] <= 1e-8:
+                    if not fixed and aug["defect"] <= 1e-8 and aug.get("defect_t", 0.0) > 1e-8:
                         cause = " [truncation-noncanonical: canonical before the truncation, not after]"
                     return f"{w}: returned state is not canonical at the root (isometry defect {dfx:.2e}){cause}{after_nc}"
                 # --- numbers of evolutions and Hermiticity of what is exponentiated
@@ -1195,8 +1225,10 @@ class C09(Prop):
                     if abs(e1 - e0) > Hn * (2 * scale * bound + bound ** 2) + 1e-8 * Hn * scale ** 2:
                         return f"{w}: energy changed by {abs(e1 - e0):.3e} beyond the truncation tolerance"
                     if not near and st["defect0"] <= 1e-8:
-                        if rk != st["bonds1"] and not redundant:
-                            return f"{w}: bond dimensions after truncation {st['bonds1']} reference {rk}"
+                        if aug.get("bonds_t") != rk and not redundant:
+                            return f"{w}: bond dimensions after truncation {aug.get('bonds_t')} reference {rk}"
+                        if st["bonds1"] != reduced_bonds(par, ob["dims"], rk) and not redundant:
+                            return f"{w}: bond dimensions after re-canonicalisation {st['bonds1']} expected {reduced_bonds(par, ob['dims'], rk)}"
                         if float(np.linalg.norm(psi_t - psi1)) > 1e-8 * scale and not redundant:
                             return f"{w}: truncated state differs from the reference truncation of the same augmented state by {float(np.linalg.norm(psi_t - psi1)):.3e}"
                 else:
@@ -1255,6 +1287,23 @@ class C09(Prop):
 
     def sample_repr(self, case):
         return case
+
+
+def reduced_bonds(parents, dims, ranks):
+    """bond dimensions after a leaves-to-root sweep of reduced QR decompositions."""
+    ch = children_of(parents)
+    out = {}
+
+    def rec(i):
+        below = dims[i]
+        for c in ch[i]:
+            below *= rec(c)
+        if i == 0:
+            return 1
+        out[i] = min(ranks[i], below)
+        return out[i]
+    rec(0)
+    return out
 
 
 def feasible_bonds_fix(parents, phys, bond):
